@@ -400,11 +400,11 @@ func execSv(toks []string) string {
 				// cl 0 = no Content-Length, 1 = "abc", 2 = "-5", k+10 = the number k
 				s := &spdy.SynStreamFrame{StreamId: spdy.StreamId(n[0]), Headers: http.Header{}}
 				if !synSeen[n[0]] {
-				// a request body starts here (DATA before the first SYN_STREAM of the id is refused, not delivered;
-				// a repeated SYN_STREAM never starts a second body)
-				synSeen[n[0]] = true
-				sent[n[0]] = 0
-			}
+					// a request body starts here (DATA before the first SYN_STREAM of the id is refused, not delivered;
+					// a repeated SYN_STREAM never starts a second body)
+					synSeen[n[0]] = true
+					sent[n[0]] = 0
+				}
 				meth := "POST"
 				if n[1] != 0 {
 					meth = "GET"
